@@ -148,6 +148,12 @@ func fetchPkgEnums(pa *packages.Package) enumsMap {
 		}
 		// per the spec, only basic types may be constant
 
+		// an enum is defined by the constants of its own package : constants of a
+		// type from another package would compete, between packages, for the same type
+		if named.Obj().Pkg() != pa.Types {
+			continue
+		}
+
 		comment := fetchConstComment(pa, decl)
 		if strings.Contains(comment, IgnoreDeclComment) { // this value does not implies an enum
 			continue
